@@ -1240,7 +1240,7 @@ theorem setFrequencies_ok (s : St ℝ) (h : Inv s) (p : List ℝ) (hp : ValidPro
   have htake : p.take s.dim = p := by rw [← hl]; exact List.take_length
   obtain ⟨s', e, hi, hpar, hd, hme, _⟩ := matchParams_ok s h (paramsOf s.method p) hlen ho
   simp only [setFrequencies, Nat.ne_of_gt h.dim_pos, if_false, sumOk_of p hp.sum, Bool.not_true,
-    Bool.false_eq_true, hl, lt_irrefl, htake]
+    Bool.false_eq_true, hl, ne_eq, not_true_eq_false, htake]
   refine ⟨s', e, ?_, hpar, hi⟩
   have e1 := hi.probs
   rw [hpar, hd, hme, ← hl, roundtrip_all s.method p h.method hp.pos hp.ne hp.sum hp.len] at e1
@@ -1393,7 +1393,7 @@ theorem constructDim_ok (dim m : Nat) (a : Bool) (hm : ValidMethod m) (hd : 0 < 
     refine ⟨s', ?_, ?_, hi, hal, hdim, hme⟩
     · show (do let θ ← pure _; setFrequencies _ _) = _
       simp only [pure_bind, setFrequencies, Nat.ne_of_gt hd, if_false, sumOk_of _ hu.sum, Bool.not_true,
-        Bool.false_eq_true, hlen, lt_irrefl, htake]
+        Bool.false_eq_true, hlen, ne_eq, not_true_eq_false, htake]
       exact e
     · have e1 := hi.probs
       rw [hpar, hdim, hme] at e1
